@@ -49,6 +49,13 @@ def free_scenarios(run):
     # the same after thousands of other keys have been used (whatever a keyed mutex keeps per key must not run out or be shared)
     for sc in list(out)[:: (3 if q else 1)]:
         out.append(dict(sc, warm=(5000 if q else 20000)))
+    # a large map of keys, idle keys cleared while other keys are held: ClearKey of an idle key must not give a held key a new mutex
+    for kind, L, T, U, C in (("m", "Lock", "TryLock", "Unlock", "ClearKey"), ("rw", "WLock", "TryWLock", "WUnlock", "WClearKey")):
+        for warm in (70, 130):
+            out.append(dict(kind=kind, warm=warm, warmclear=True, steps=[st(1, L, 1), st(2, L, 2), st(2, U, 2), st(3, C, 2), st(4, T, 1), st(4, T, 3),
+                                                                          st(4, U, 3), st(3, C, 3), st(4, T, 1), st(2, T, 1), st(1, U, 1)]))
+            out.append(dict(kind=kind, warm=warm, warmclear=True, steps=[st(1, L, 1), st(2, L, 2), st(3, L, 3), st(2, U, 2), st(2, C, 2), st(4, T, 1), st(4, T, 3),
+                                                                          st(3, U, 3), st(3, C, 3), st(4, T, 1), st(1, U, 1), st(4, T, 1)]))
     for i in range(60 if q else 1500):
         out.append(dict(kind=("m" if i % 2 else "rw"), steps=[dict(t=run.rng.randint(1, 4), r=run.rng.randint(0, 9999)) for _ in range(run.rng.randint(8, 30))]))
     return out
